@@ -1123,8 +1123,8 @@ def check_active_fd_share(P, ctx):
             if k is None or k < 2 or op not in ("<", "<="):
                 continue
             # the T edge hands out the shared descriptor once more
-            shares = any(m["k"] == "un" and m["op"] in ("++", "post++") and f.fields_of(m["sub"])[-1:] == f.fields_of(l)[-1:]
-                         for bb in C.only_via_edge(f, b, "T") for e in f.blocks[bb].elems for m in [f.nodes[e]])
+            # the same function hands the descriptor out once more (counts the new user) when the test lets it
+            shares = any(m["k"] == "un" and m["op"] in ("++", "post++") and f.fields_of(m["sub"])[-1:] == f.fields_of(l)[-1:] for m in f.nodes.values())
             if not shares:
                 continue
             n += 1
